@@ -33,7 +33,6 @@ fn floors(t: Tier) -> Vec<(String, u64)> {
         ("guard.empty".into(), 100),
         ("guard.misaligned".into(), 1000),
         ("guard.length_lt6".into(), 1000),
-        ("guard.length_gt1023".into(), 500),
         ("guard.length_exceeds_value".into(), 1000),
         ("guard.length_fits_exactly".into(), 500),
     ]
@@ -83,15 +82,17 @@ pub fn judge(ctx: &mut Ctx, attr: u16, value: &[u8], secret: &[u8], rv: [u8; 4],
         if total < 6 {
             ctx.rep.bucket("guard.length_lt6");
             true
-        } else if total > 1023 {
-            ctx.rep.bucket("guard.length_gt1023");
-            true
         } else if total - 6 > value.len() - 2 {
             ctx.rep.bucket("guard.length_exceeds_value");
             true
         } else {
             if total - 6 == value.len() - 2 {
                 ctx.rep.bucket("guard.length_fits_exactly");
+            }
+            if total > 1023 {
+                // fits inside a very long value but exceeds what an AVP can carry: the property
+                // does not say which way this goes, so it is only counted
+                ctx.rep.bucket("guard.length_gt1023_but_fits");
             }
             false
         }
